@@ -27,7 +27,18 @@ wt = a.wt or '/tmp/mutrun-%d' % os.getpid()
 subprocess.check_call(['git', '-C', '/repo', 'worktree', 'add', '--detach', wt, 'HEAD'], stdout=subprocess.DEVNULL, stderr=subprocess.DEVNULL)
 res = {'patch': patch, 'checks': {}}
 try:
-    subprocess.check_call(['git', '-C', wt, 'apply', patch])
+    if subprocess.call(['git', '-C', wt, 'apply', patch], stderr=subprocess.DEVNULL) != 0:
+        # /repo has moved on (later fix: commits): rebase the change with a 3-way apply and keep the rebased diff
+        subprocess.check_call(['git', '-C', wt, 'apply', '-3', patch])
+        subprocess.call(['git', '-C', wt, 'reset', '-q'])
+        rebased = subprocess.check_output(['git', '-C', wt, 'diff'])
+        if os.path.isdir(target) and rebased.strip():
+            orig = os.path.join(target, 'patch.orig.diff')
+            if not os.path.exists(orig):
+                shutil.copy(patch, orig)
+            with open(patch, 'wb') as f:
+                f.write(rebased)
+            print('patch rebased onto the current /repo HEAD')
     env = dict(os.environ, VERIF_REPO=wt, VERIF_EVIDENCE_DIR='/tmp/mut_evidence/%s' % os.path.basename(wt), VERIF_REPLAY_DIR='/tmp/mut_replays/%s' % os.path.basename(wt))
     if a.demo and os.path.exists(os.path.join(os.path.dirname(patch), 'demo.py')):
         demo = os.path.join(os.path.dirname(patch), 'demo.py')
